@@ -45,6 +45,14 @@ CHECKS = {
    text="(a) Explicit-state exploration of the accept-reject loop (multi_sampling, as used by generate_toy / generate_toy_p / ARGenerator) under an environment owned by the harness: every sequence of per-batch weight patterns from a 6-element menu up to depth 3 (quick) / 4 (thorough) x (N, max_N, force, initial bound, importance function); every batch (transition) checked for bound >= weights and kept = {u*bound < w}, every re-thinning for weight independence, every final state for the exact count and for each returned event having been accepted under a bound >= its weight; end-to-end exact count / physical events on a real model; interp_sample_f. (b) LinearInterp on 7 grids (flat, steep, zero nodes, 2-6 nodes), BWGenerator, InterpND / InterpNDHist in 1-D and 2-D on uniform and non-uniform grids: CDF inversion on u lattices, range, per-cell mass vs the exact integral of the interpolant under a stratified script, within-cell kernel inversion. (c) adaptive bins for N=4..12, 3 orderings, 8 layouts incl. ties and 2-D. (d) weighted histograms: sum w and sum w^2 for 4 weight sets x 4 binnings.",
    note="'Follows the model density' and the all-seeds statistical statements are decided only through their algebraic sufficient conditions under owned random numbers; no statistical test is run.",
    technique="explicit-state exploration of the sampler loop with an owned environment (all menu sequences to a depth) + bounded-exhaustive lattices"),
+ "C06": dict(level="exploration", ref="4-C06",
+   text="Product enumeration: 10 likelihood models selectable by configuration (default, extended, cfit, cfit+cached_amp, cfit+extended, cached_int, cached_amp, simple, simple_clip, simple_cfit) x weight patterns for data/phase space/background (absent, positive, mixed signs; quick: pairwise-covering subset, thorough: full product) x background sample none / unweighted (-w_bkg) / own weights x batch sizes incl. non-dividing x 1 or 2 simultaneous data sets with different w_bkg x Gaussian constraint x parameter points; all three value paths (fcn(x), nll_grad[0], nll_grad_hessian[0]) against the defining formula in numpy; rescaling invariance; histories of get_fcn over three different samples on one ConfigLoader (id-keyed / lru caches).",
+   note="The density is taken from the library's eager unbatched pdf (C01-C05 cover it). Events above the clip threshold. inject_mc excluded by the statement.",
+   technique="bounded-exhaustive product enumeration of likelihood configurations + explicit histories, numpy reference formula"),
+ "C07": dict(level="exploration", ref="4-C07",
+   text="For every model of C06 x floating/constraint scenario (couplings; mass+width with Gaussian constraint; mass with a fixed and a tied coupling; width with two constraints) x batch sizes x points (+ two simultaneous data sets sharing a constraint): nll_grad, nll_grad_hessian and grad_hessp (unit, ones and ramp direction vectors) against automatic differentiation (nested tapes) of the stand-alone value the object reports; the three bound-transformation wrappers for two-sided, lower, upper, custom-expression and mixed bounds on an exact quadratic and on the real NLL against the chain rule with y', y'' from 40-digit mpmath differentiation.",
+   note="Trusted base: TensorFlow reverse-mode AD of the value path; mpmath differentiation. Interior points; cached integrals with fixed line shapes only.",
+   technique="bounded-exhaustive enumeration of (model, scenario, batch, direction) with an AD-of-value derivative oracle"),
 }
 
 NA_REASON = "check not built yet in this round (planned in DESIGN.md section 4)"
